@@ -3,6 +3,14 @@ package main
 // props is the per-property run configuration. Case counts bound the work
 // (never wall clock); TimeoutS is only a safety net that yields exit 2.
 var props = map[string]propCfg{
+	"C02": {
+		Test:     "TestC02",
+		Quick:    tierCfg{Shards: 8, Checks: 25000, TimeoutS: 900},
+		Thorough: tierCfg{Shards: 16, Checks: 2000000, TimeoutS: 14400},
+		Rule:     "each case = one byte string at a drawn alignment, from: grammar-generated valid documents (block-geometry strings, wide objects, all number forms), one or two structural mutations of those (delete/duplicate/replace a structural byte, truncate, append junk, near-literals, malformed numbers, byte insert/swap/delete, control byte or invalid UTF-8 inside a string), a string-geometry sweep (body lengths 0..130 with an escape/quote/backslash at every offset, in 6 templates, optionally truncated), and raw bytes over the JSON alphabet. The string is offered to 37 consuming entry points (Valid/ValidString/encoder.Valid, Unmarshal and UnmarshalFromString under ConfigStd and ConfigDefault into interface{}, RawMessage, NoCopyRawMessage, a recording Unmarshaler, ast.Node, typed containers and skipping structs, Get/GetFromString/GetWithOptions, NewSearcher, NewRaw, NewRawConcurrentRead followed by Check+LoadAll+Raw+Interface, decoder.Skip). Oracle (sandwich): not ref.Structural => every entry point rejects; encoding/json.Valid (depth <= 512) => every type-agnostic entry point accepts (value-converting ones only if the numbers fit float64); captured raw text must itself be structural; decoder.Skip must delimit exactly the first value. Non-trivial: a non-valid mutated/raw input, or a valid input longer than 64 bytes. Distinct = distinct canonical case encodings.",
+		Assume:   []string{"ref.Structural (iterative recogniser with lenient string bodies) defines 'structurally malformed'; encoding/json.Valid defines 'valid'", "Get with a non-empty path is exercised in C14"},
+		EssentialClasses: []string{"doc-valid", "doc-malformed", "doc-structural-only", "src:geometry-truncated", "src:mutated:truncate", "src:raw"},
+	},
 	"C01": {
 		Test:     "TestC01",
 		Quick:    tierCfg{Shards: 8, Checks: 5000, TimeoutS: 900},
